@@ -28,6 +28,8 @@ func TestMain(m *testing.M) { hx.Main(m) }
 
 type rapidT = rapid.T
 
+func rapidBool(t *rapid.T, label string) bool { return rapid.Bool().Draw(t, label) }
+
 // Operation kinds.
 const (
 	opPush     = "push"     // PushMessage(&AuditMessage{RecordType: Typ, Sequence: Seq})
